@@ -101,7 +101,7 @@ theorem sendCoins_succeeds {src dst : Addr} (hne : src ≠ dst) :
     exact ⟨b', by simp only [sendCoins, hs]; exact hb'⟩
 
 /-! ### ordered insertion -/
-theorem mem_insertBy {α} (lt : α → α → Bool) (x y : α) (l : List α) : y ∈ insertBy lt x l ↔ y = x ∨ y ∈ l := by
+theorem mem_insertBy8 {α} (lt : α → α → Bool) (x y : α) (l : List α) : y ∈ insertBy lt x l ↔ y = x ∨ y ∈ l := by
   induction l with
   | nil => simp [insertBy]
   | cons z zs ih =>
@@ -208,11 +208,11 @@ theorem urisNodup_insertBy (lt : Item → Item → Bool) (x : Item) (l : List It
       simp only [List.map_cons, List.nodup_cons, List.mem_map, not_exists, not_and]
       refine ⟨?_, ih'⟩
       intro y hy e
-      rcases (mem_insertBy lt x y zs).1 hy with rfl | hy'
+      rcases (mem_insertBy8 lt x y zs).1 hy with rfl | hy'
       · exact hx z (List.mem_cons_self ..) e.symm
       · exact h1 y hy' e
 
-theorem findItem_some {s : St} {u : String} {it : Item} (h : findItem s u = some it) : it ∈ s.items ∧ it.uri = u := by
+theorem findItem_some8 {s : St} {u : String} {it : Item} (h : findItem s u = some it) : it ∈ s.items ∧ it.uri = u := by
   unfold findItem at h
   have h1 := List.mem_of_find?_eq_some h
   have h2 := List.find?_some h
